@@ -204,8 +204,8 @@ pub fn replay(o: &Opts) -> Res<()> {
     let c = consts();
     let mut rng = o.rng(16);
     let thorough = o.thorough();
-    let w_valid: usize = o.opt("--w-valid").and_then(|s| s.parse().ok()).unwrap_or(if thorough { 400 } else { 24 });
-    let w_unrel: usize = o.opt("--w-unrel").and_then(|s| s.parse().ok()).unwrap_or(if thorough { 120 } else { 12 });
+    let w_valid: usize = o.opt("--w-valid").and_then(|s| s.parse().ok()).unwrap_or(if thorough { 400 } else { 16 });
+    let w_unrel: usize = o.opt("--w-unrel").and_then(|s| s.parse().ok()).unwrap_or(if thorough { 120 } else { 10 });
     let w_key: usize = if thorough { 3000 } else { 200 };
 
     // group the table by signature class
